@@ -52,6 +52,10 @@ pub(crate) fn repair_index<S: Open>(
     let be = repo.dbe();
     let mut checker = PackChecker::new(repo)?;
 
+    // Index files which are replaced. They are only removed after everything they listed has
+    // been written to new index files, so that an interruption never leaves packs unindexed.
+    let mut obsolete_index_files = Vec::new();
+
     let p = repo.progress_counter("reading index...");
     for index in be.stream_all::<IndexFile>(&p)? {
         let (index_id, index) = index?;
@@ -62,7 +66,7 @@ pub(crate) fn repair_index<S: Open>(
                 if !new_index.packs.is_empty() || !new_index.packs_to_delete.is_empty() {
                     _ = be.save_file(&new_index)?;
                 }
-                be.remove(FileType::Index, &index_id, true)?;
+                obsolete_index_files.push(index_id);
             }
             (false, _) => {} // nothing to do
         }
@@ -108,6 +112,10 @@ pub(crate) fn repair_index<S: Open>(
     }
     indexer.write().unwrap().finalize()?;
     p.finish();
+
+    for index_id in obsolete_index_files {
+        be.remove(FileType::Index, &index_id, true)?;
+    }
 
     Ok(())
 }
